@@ -443,6 +443,47 @@ def build():
         ens["no_config_write"] = "n_events('tlocal-write') == 0"
         p.add(Contract(PAR, "Parallel.__init__", variant="settings-priority:" + "+".join(fam), props=["C17"], globals=G2,
                        setup=touch, inline=INL, params=params, ensures=ens))
+    # ------------------------------------------------------------------ _check_backend (representation b)
+    def cb_self(interp):
+        ctx = interp.ctx
+        o = SObj("parallel_config", {})
+        parent = OneOf(SENT_B["backend"], "obj").fresh(ctx, "parent")
+        d = dict(SENT_B)
+        if parent == "obj":
+            d["backend"] = mk_backend(interp, "LokyBackend", level=INT.fresh(ctx, "parent_level"))
+        o.fields["old_parallel_config"] = PyDict(d)
+        return o
+
+    def cb_backend(interp):
+        k = interp.ctx.choose(5, "backend-arg")
+        if k == 4:
+            b = mk_backend(interp, "ThreadingBackend", level=Opt(INT).fresh(interp.ctx, "blevel"))
+            b.fields["supports_inner_max_num_threads"] = OneOf(False, True).fresh(interp.ctx, "simt")
+            return b
+        return [SENT_B["backend"], "threading", "loky", "nosuch"][k]
+
+    p.spec_funcs["lvl"] = lambda interp, b: b.fields["nesting_level"] if isinstance(b, SObj) else None
+    p.spec_funcs["parent_level"] = lambda interp, me: (lambda pb: 0 if pb is SENT_B["backend"] else pb.fields["nesting_level"])(me.fields["old_parallel_config"].d["backend"])
+    GLOB_CB = dict(GLOB_B)
+    GLOB_CB["EXTERNAL_BACKENDS"] = PyDict({})
+    GLOB_CB["MAYBE_AVAILABLE_BACKENDS"] = frozenset()
+    p.add(Contract(
+        PAR, "parallel_config._check_backend", props=["C17"], globals=GLOB_CB, inline={"__init__"},
+        params=dict(self=cb_self, backend=cb_backend, inner_max_num_threads=OneOf(None, INT), backend_params=OneOf(PyDict({}), PyDict({"x": 1}))),
+        ensures={
+            "unset_stays_unset": "implies(is_default(backend, 'backend'), result is backend)",
+            "name_gives_an_instance_of_that_backend": "implies(isinstance(backend, str), is_cls(result, cls_of(backend)))",
+            "instance_is_kept": "implies(is_cls(backend, 'ThreadingBackend'), same_obj(result, backend))",
+            "nesting_level_inherited_when_unset": "implies(not is_default(backend, 'backend') and (isinstance(backend, str) or old(lvl(backend)) is None), "
+                                                  "result.nesting_level == parent_level(self))",
+            "explicit_nesting_level_kept": "implies(is_cls(backend, 'ThreadingBackend') and old(lvl(backend)) is not None, result.nesting_level == old(lvl(backend)))",
+        },
+        exsures={"ValueError": {"documented": "backend == 'nosuch' or (is_default(backend, 'backend') and (inner_max_num_threads is not None or len(backend_params) > 0)) "
+                                              "or (is_cls(backend, 'ThreadingBackend') and len(backend_params) > 0)"},
+                 "AssertionError": {"inner_threads_unsupported": "inner_max_num_threads is not None"},
+                 "TypeError": {"backend_ctor_rejects_params": "len(backend_params) > 0"}},
+    ))
+
     # n_jobs from the context together with a hint/constraint given to Parallel: strict priority (known finding K6)
     G3 = dict(GLOB_P)
     G3["_backend"] = tlocal_keys(("n_jobs",))
